@@ -39,12 +39,16 @@ Lemma check_node_srel : forall ci cn, bn c0 ci ->
   srel' ci (fst (check_node w grace ci cn)) /\ bn c0 (fst (check_node w grace ci cn)).
 Proof.
   intros ci cn [Hb Hc]. unfold check_node.
-  set (kn := knode_for w ci cn). set (kex := negb (N.eqb kn 0) && nmem kn (w_knodes w)).
+  pose proof (knode_for_cnodes w c0 ci cn Hc) as Hk.
+  destruct (knode_for w ci cn) as [kn|] eqn:Ekn.
+  2:{ cbn [fst]. split; [apply srel_same; reflexivity | split; auto]. }
+  unfold check_node_k.
+  set (kex := negb (N.eqb kn 0) && nmem kn (w_knodes w)).
   assert (Hkex : kex = kexists w c0 cn).
-  { unfold kex, kn, kexists. rewrite (knode_for_cnodes w c0 ci cn Hc). reflexivity. }
+  { unfold kex, kexists. rewrite <- Hk. reflexivity. }
   set (ids := ri_ids cn (c_bynode ci)).
   assert (Hdead : kex = false -> forall i, In i ids -> dead i).
-  { intros Hk i Hi. unfold ids in Hi. apply ri_ids_In in Hi. rewrite Hb in Hi. exists cn. split; auto. congruence. }
+  { intros Hk' i Hi. unfold ids in Hi. apply ri_ids_In in Hi. rewrite Hb in Hi. exists cn. split; auto. congruence. }
   assert (Q : (fun st : ctrl * bool * list id =>
                  srel' ci (fst (fst st)) /\ bn c0 (fst (fst st)) /\ (forall i, In i (snd st) -> In i ids))
               (fold_left (check_alloc w grace kn kex) ids (ci, true, []))).
@@ -107,7 +111,8 @@ Qed.
 Lemma rub_visit_srel : forall st b, srel' (fst st) (fst (rub_visit w grace st b)).
 Proof.
   intros [c calls] b. cbn [fst]. unfold rub_visit.
-  destruct (mget b (c_empty c)); [|apply srel_refl]. destruct (Nat.leb _ 1); [apply srel_refl|].
+  destruct (mget b (c_empty c)) as [n|]; [|apply srel_refl]. destruct (Nat.leb _ 1); [apply srel_refl|].
+  destruct (knode_for w c n); [|cbn [fst]; apply srel_same; reflexivity].
   pose proof (mark_empty_same (w_now w) grace b c) as [Hs _].
   destruct (mark_empty (w_now w) grace b c) as [c1 ok]. cbn [fst] in Hs.
   assert (S1 : srel' c c1) by (apply srel_same; auto).
